@@ -184,8 +184,33 @@ let op_cycle (args : str list) : str list =
     | _ -> failwith "bad decl" in
   [ if reports_cycle (List.map decl args) then "1" else "0" ]
 
+(* language server: each argument one message:
+   "O uid file ver doc" | "C uid file ver d1,d2|-" | "S id uid file" | "Q id" | "N" | "A id" *)
+let z_of_int (i : int) : z = if i = 0 then Z0 else if i > 0 then Zpos (pos_of_int i) else Zneg (pos_of_int (-i))
+let int_of_z (x : z) : int = match x with Z0 -> 0 | Zpos p -> int_of_pos p | Zneg p -> - (int_of_pos p)
+let op_lsp (args : str list) : str list =
+  let n s = n_of_int (int_of_string s) in
+  let uri a b = { u_id = n a; u_file = (b = "1") } in
+  let m a =
+    match S.split_on_char ' ' a with
+    | ["O"; u; f; v; d] -> DidOpen (uri u f, z_of_int (int_of_string v), n d)
+    | ["C"; u; f; v; ds] -> DidChange (uri u f, z_of_int (int_of_string v),
+                                       if ds = "-" then [] else List.map n (S.split_on_char ',' ds))
+    | ["S"; i; u; f] -> SemTokens (n i, uri u f)
+    | ["Q"; i] -> OtherRequest (n i)
+    | ["N"] -> OtherNotification
+    | ["A"; i] -> Response (n i)
+    | _ -> failwith "bad message" in
+  let show o =
+    match o with
+    | Publish (u, v, _) -> Printf.sprintf "P %d %d %d" (int_of_n u.u_id) (if u.u_file then 1 else 0) (int_of_z v)
+    | Reply (i, t) -> Printf.sprintf "R %d %d" (int_of_n i) (if t then 1 else 0)
+    | ErrorReply (i, c) -> Printf.sprintf "E %d %d" (int_of_n i) (int_of_z c) in
+  [ S.concat ";" (List.map show (lsp_run (List.map m args))) ]
+
 let ops : (str * (str list -> str list)) list ref =
-  ref [ ("lex", op_lex); ("semtok", op_semtok); ("decode", op_decode); ("lit", op_lit); ("cycle", op_cycle) ]
+  ref [ ("lex", op_lex); ("semtok", op_semtok); ("decode", op_decode); ("lit", op_lit); ("cycle", op_cycle);
+        ("lsp", op_lsp) ]
 
 
 let () =
